@@ -549,8 +549,8 @@ type TNamed4 struct {
 // remaining integer widths as plain fields and as slice elements
 type TInts4 struct {
 	A int64   `plenc:"1"`
+	B int32   `plenc:"2,flat"`
 	C []int32 `plenc:"3"`
-	D []uint8 `plenc:"4,flat"`
 }
 
 type TMapBool struct {
